@@ -1,20 +1,24 @@
 /* C09 --- full/empty lock: single-slot mailbox, P producers, C consumers, plain lock/unlock mixed in. */
 #include "hcommon.h"
-typedef struct { int np, nc, n, peek, W, K; } prog_t;
+typedef struct { int np, nc, n, peek, W, K, readff; } prog_t;
 #define MAXP 64
 static prog_t P[2][MAXP]; static int NP[2];
-static void add(int tier, int np, int nc, int n, int peek, int W, int K) { if (NP[tier] < MAXP) { prog_t * p = &P[tier][NP[tier]++]; p->np = np; p->nc = nc; p->n = n; p->peek = peek; p->W = W; p->K = K; } }
+static void add(int tier, int np, int nc, int n, int peek, int W, int K) { if (NP[tier] < MAXP) { prog_t * p = &P[tier][NP[tier]++]; p->np = np; p->nc = nc; p->n = n; p->peek = peek; p->W = W; p->K = K; p->readff = 0; } }
 static void build(void) {
   static int built; if (built) return; built = 1;
   for (int tier = 0; tier < 2; tier++) for (int W = 1; W <= (tier ? 3 : 2); W++) {
     int K = tier ? 3 : 2; if (W == 3) K = 2;
     add(tier, 1, 1, 2, 0, W, K); add(tier, 1, 1, 2, 1, W, tier ? 2 : 1); add(tier, 2, 1, 2, 0, W, 2); add(tier, 1, 2, 2, 0, W, 2);
     add(tier, 2, 2, 2, 0, W, tier ? 2 : 1); if (tier) { add(tier, 1, 1, 3, 0, W, 2); add(tier, 2, 2, 2, 1, W, 1); }
+    /* read-and-leave-full: one writer fills the cell once, nc readers each wait for "full" and leave it full */
+    for (int r = 2; r <= (tier ? 3 : 2) + (W == 1); r++) { add(tier, 1, r, 1, 0, W, r == 2 ? K : 1); P[tier][NP[tier] - 1].readff = 1; }
   }
 }
 static int nprogs(int tier) { build(); return NP[tier]; }
 static void config(int tier, int prog, int * W, int * K) { build(); *W = P[tier][prog].W; *K = P[tier][prog].K; }
-static void describe(int tier, int prog, char * b, size_t n) { build(); prog_t * p = &P[tier][prog]; snprintf(b, n, "felock mailbox producers=%d consumers=%d items=%d%s", p->np, p->nc, p->n, p->peek ? " +plain lock/unlock observer" : ""); }
+static void describe(int tier, int prog, char * b, size_t n) { build(); prog_t * p = &P[tier][prog];
+  if (p->readff) { snprintf(b, n, "felock read-and-leave-full: 1 writer, %d readers", p->nc); return; }
+  snprintf(b, n, "felock mailbox producers=%d consumers=%d items=%d%s", p->np, p->nc, p->n, p->peek ? " +plain lock/unlock observer" : ""); }
 static prog_t * cur; static myth_felock_t fe;
 static volatile int occ, box, next_item, got_n, got_sum, stop_peek;
 static void inside(const char * who, int want) {
@@ -33,6 +37,15 @@ static void * consumer(void * a) {
   for (int i = 0; i < cnt; i++) { myth_felock_wait_and_lock(&fe, 1); inside("consumer", 1); got_sum += box; got_n++; box = 0; myth_felock_mark_and_signal(&fe, 0); }
   return 0;
 }
+static volatile int readers_done;
+static void * ff_reader(void * a) {
+  (void)a; myth_felock_wait_and_lock(&fe, 1); inside("reader", 1);
+  MV_CHECK(box == 77, "reader saw %d in the cell", box);
+  readers_done++;
+  myth_felock_mark_and_signal(&fe, 1);        /* leave it full: the next reader must be let through */
+  return 0;
+}
+static void * ff_writer(void * a) { (void)a; myth_felock_wait_and_lock(&fe, 0); inside("writer", 0); box = 77; myth_felock_mark_and_signal(&fe, 1); return 0; }
 static void * observer(void * a) {
   (void)a;
   for (int i = 0; i < 2; i++) { myth_felock_lock(&fe); inside("observer", -1); myth_felock_unlock(&fe); myth_yield(); }
@@ -43,6 +56,13 @@ static void run(int tier, int prog) {
   mv_start(cur->W);
   myth_felock_init(&fe, 0);
   myth_thread_t th[8]; int nt = 0;
+  if (cur->readff) {
+    for (int i = 0; i < cur->nc; i++) th[nt++] = myth_create(ff_reader, 0);
+    th[nt++] = myth_create(ff_writer, 0);
+    for (int i = 0; i < nt; i++) myth_join(th[i], 0);
+    MV_CHECK(readers_done == cur->nc && myth_felock_status(&fe) == 1, "%d of %d readers got through, status %d", readers_done, cur->nc, myth_felock_status(&fe));
+    mv_obs("readers=%d", readers_done); myth_felock_destroy(&fe); mv_finish(); return;
+  }
   for (int i = 0; i < cur->nc; i++) th[nt++] = myth_create(consumer, (void *)(long)(cur->n / cur->nc));
   if (cur->peek) th[nt++] = myth_create(observer, 0);
   for (int i = 0; i < cur->np; i++) th[nt++] = myth_create(producer, (void *)(long)(cur->n / cur->np));
